@@ -147,8 +147,8 @@ def run(tier, seed):
         rep.inconcl("MIR dump failed: %s" % e)
         return rep.finish()
     prog = MI.Program(open(path).read(), source_root=os.path.join(core.REPO, "mithril-stm"))
-    shapes = [(1,), (2,), (1, 1), (2, 1)] if tier == "quick" else [(1,), (2,), (1, 1), (2, 1), (2, 2), (1, 1, 1)]
-    mono = [((1,), 1), ((2,), 2), ((1, 1), 1)] if tier == "quick" else [((1,), 1), ((2,), 2), ((1, 1), 1), ((2, 1), 2), ((2, 1), 1), ((1, 1), 2)]
+    shapes = [(1,), (2,), (1, 1), (2, 1)] if tier == "quick" else [(1,), (2,), (1, 1), (2, 1), (1, 1, 1)]
+    mono = [((1,), 1), ((2,), 2), ((1, 1), 1)] if tier == "quick" else [((1,), 1), ((2,), 2), ((1, 1), 1), ((2, 1), 1), ((1, 1), 2)]
     rep.enumerated = ["list shapes (indices per signature): %s" % (shapes,), "monotonicity: base shape + one extra entry with n indices, inserted at every position: %s" % (mono,)]
     rep.bounds = {"max_signatures": 3, "max_indices_per_signature": 2, "loop_unroll": 12}
     tmo = 120 if tier == "quick" else 600
